@@ -1,5 +1,6 @@
 //! Property registry: which campaigns decide which property, with what budgets.
 
+use crate::bytes::{BytesCampaign, Target};
 use crate::driver::{self, Campaign, Ctx, Evidence, Outcome, Tier};
 use crate::fmt::{FmtCampaign, Focus, OutcomeExhaustive};
 use crate::queue::concurrent::ConcCampaign;
@@ -41,6 +42,7 @@ pub fn run(id: &'static str, tier: Tier, seed: u64) -> Option<Evidence> {
             let c = FmtCampaign::new("fmt-line", Focus::Line);
             driver::run_random(&c, &ev, &ctx, scale(tier.pick(40_000, 1_000_000)), sh);
             c.report(&ev);
+            fuzz_tier(id, Target::Fmt, &ev, &ctx, tier);
             Some(ev)
         }
         "C02" => {
@@ -54,6 +56,7 @@ pub fn run(id: &'static str, tier: Tier, seed: u64) -> Option<Evidence> {
             let c = FmtCampaign::new("fmt-value", Focus::Value);
             driver::run_random(&c, &ev, &ctx, scale(tier.pick(60_000, 2_000_000)), sh);
             c.report(&ev);
+            fuzz_tier(id, Target::Fmt, &ev, &ctx, tier);
             Some(ev)
         }
         "C03" => {
@@ -88,6 +91,7 @@ pub fn run(id: &'static str, tier: Tier, seed: u64) -> Option<Evidence> {
         "C05" | "C06" | "C07" | "C19" => Some(run_writer(id, tier, seed, &ctx, sh)),
         "C08" | "C09" | "C10" | "C11" | "C15" | "C16" => Some(run_queue(id, tier, seed, &ctx, sh)),
         "C13" | "C14" => Some(run_sockets(id, tier, seed, &ctx, sh)),
+        "C20" => Some(run_c20(id, tier, seed, &ctx, sh)),
         "C12" => {
             use crate::stress::{StressCampaign, StressSink};
             let mut ev = Evidence::new(
@@ -170,6 +174,96 @@ fn run_sched(id: &'static str, tier: Tier, seed: u64, ctx: &Ctx, sh: u32) -> Evi
     ev.set_exhaustive(false);
     if ok {
         driver::run_random(&SchedCampaign, &ev, ctx, scale(tier.pick(30_000, 1_000_000)), sh);
+    }
+    ev
+}
+
+/// the property's view of a libFuzzer target (which findings count for it)
+pub fn bytes_campaign(id: &str, target: Target) -> Option<BytesCampaign> {
+    let (name, fmt_focus, mlw_focus): (&'static str, Focus, Rule) = match (id, target) {
+        ("C01", Target::Fmt) => ("fuzz-fmt-line", Focus::Line, Rule::Panic),
+        ("C02", Target::Fmt) => ("fuzz-fmt-value", Focus::Value, Rule::Panic),
+        ("C05", Target::Mlw) => ("fuzz-mlw-framing", Focus::Panic, Rule::Framing),
+        ("C07", Target::Mlw) => ("fuzz-mlw-faults", Focus::Panic, Rule::Fault),
+        ("C19", Target::Mlw) => ("fuzz-mlw-greedy", Focus::Panic, Rule::Greedy),
+        ("C20", Target::Fmt) => ("bytes-fmt-panic", Focus::Panic, Rule::Panic),
+        ("C20", Target::Mlw) => ("bytes-mlw-panic", Focus::Panic, Rule::Panic),
+        ("C20", Target::Api) => ("bytes-api-panic", Focus::Panic, Rule::Panic),
+        _ => return None,
+    };
+    Some(BytesCampaign {
+        name,
+        target,
+        fmt_focus,
+        mlw_focus,
+    })
+}
+
+fn fuzz_tier(id: &'static str, target: Target, ev: &Evidence, ctx: &Ctx, tier: Tier) {
+    if tier != Tier::Thorough || !ev.violations().is_empty() {
+        return;
+    }
+    if let Some(c) = bytes_campaign(id, target) {
+        let runs = crate::util::env_u64("VERIF_FUZZ_RUNS", 250_000);
+        let jobs = crate::util::env_u64("VERIF_FUZZ_JOBS", 12) as u32;
+        crate::fuzzrun::run_fuzz(ev, ctx, &c, runs, jobs);
+    }
+}
+
+/// replay the committed corpus of a target through a bytes campaign
+fn corpus_replay(c: &BytesCampaign, ev: &Evidence, ctx: &Ctx, sh: u32) -> bool {
+    let dir = std::path::PathBuf::from(std::env::var("VERIF_DIR").unwrap_or_else(|_| "/verif".into())).join("corpus").join(c.target.name());
+    let mut cases = Vec::new();
+    if let Ok(rd) = std::fs::read_dir(&dir) {
+        let mut files: Vec<_> = rd.flatten().map(|e| e.path()).collect();
+        files.sort();
+        for f in files {
+            if let Ok(data) = std::fs::read(&f) {
+                cases.push(crate::bytes::BytesCase {
+                    target: c.target,
+                    hex: crate::bytes::to_hex(&data),
+                });
+            }
+        }
+    }
+    ev.add_extra_count("committed_corpus_files_replayed", cases.len() as u64);
+    driver::run_list(c, ev, ctx, cases.into_iter(), sh)
+}
+
+fn run_c20(id: &'static str, tier: Tier, seed: u64, ctx: &Ctx, sh: u32) -> Evidence {
+    let mut ev = Evidence::new(
+        id,
+        "exploration",
+        tier,
+        seed,
+        "three structure-aware byte decoders (the libFuzzer targets' own): fmt = client construction with arbitrary prefix/tags/container + call sequences with arbitrary values incl. NaN/+-inf/Duration::MAX/empty and 100 000-element lists; mlw = capacity 0.., any terminator incl. empty and longer than the capacity, ops, fault scripts; api = spy/queuing constructors with tiny capacities incl. 0, stats helpers, MetricError accessors, Debug/Display impls, standalone constructors, UDP/Unix sinks with literal/invalid addresses. Quick: proptest-generated byte strings + structured fmt/writer cases + the committed corpus; thorough adds libFuzzer campaigns (coverage-guided, -runs fixed) on all three targets. Oracle: catch_unwind around every call, built with overflow checks and debug assertions; any panic not injected by the harness is a violation. Non-trivial: a case hitting a documented edge class (capacity <= |terminator| or empty terminator, empty key and prefix, list of 0 or > 1000 elements, Duration values, queue/buffer capacity <= 1-2); distinct by input hash.",
+    );
+    ev.assume("buffer capacities <= 1 MiB and queue capacities <= 4096 (allocator aborts on absurd capacities are std's contract, not C20's); address inputs are IP literals or strings that fail before DNS; cadence::test (doc-hidden) is not API");
+    for t in [Target::Fmt, Target::Mlw, Target::Api] {
+        let c = bytes_campaign(id, t).unwrap();
+        if !corpus_replay(&c, &ev, ctx, sh) {
+            return ev;
+        }
+        if !driver::run_random(&c, &ev, ctx, scale(tier.pick(15_000, 300_000)), sh) {
+            return ev;
+        }
+    }
+    let f = FmtCampaign::new("fmt-panic", Focus::Panic);
+    if !driver::run_random(&f, &ev, ctx, scale(tier.pick(15_000, 300_000)), sh) {
+        return ev;
+    }
+    let mut g = gen_default(30, true);
+    g.big_caps = 1;
+    let wc = WriterCampaign::new("mlw-panic", Rule::Panic, Seam::Mlw, g);
+    if !driver::run_random(&wc, &ev, ctx, scale(tier.pick(10_000, 200_000)), sh) {
+        return ev;
+    }
+    let wt = WriterCampaign::new("mlw-panic-tinycap", Rule::Panic, Seam::MlwTiny, gen_default(20, true));
+    if !driver::run_random(&wt, &ev, ctx, scale(tier.pick(5_000, 100_000)), sh) {
+        return ev;
+    }
+    for t in [Target::Fmt, Target::Mlw, Target::Api] {
+        fuzz_tier(id, t, &ev, ctx, tier);
     }
     ev
 }
@@ -448,6 +542,9 @@ fn run_writer(id: &'static str, tier: Tier, seed: u64, ctx: &Ctx, sh: u32) -> Ev
         driver::run_random(&ft, &ev, ctx, scale(tier.pick(150, 3_000)), sh);
         ev.set_exhaustive(false);
     }
+    if matches!(id, "C05" | "C07" | "C19") {
+        fuzz_tier(id, Target::Mlw, &ev, ctx, tier);
+    }
     ev
 }
 
@@ -496,6 +593,16 @@ pub fn replay(id: &'static str, campaign: &str, case: &serde_json::Value, tier: 
     }
     try_camp!(ConcSockCampaign);
     try_camp!(crate::macros_child::MacroCampaign);
+    for pid in ["C01", "C02", "C05", "C07", "C19", "C20"] {
+        for t in [Target::Fmt, Target::Mlw, Target::Api] {
+            if let Some(c) = bytes_campaign(pid, t) {
+                try_camp!(c);
+            }
+        }
+    }
+    try_camp!(FmtCampaign::new("fmt-panic", Focus::Panic));
+    try_camp!(WriterCampaign::new("mlw-panic", Rule::Panic, Seam::Mlw, gen_default(30, true)));
+    try_camp!(WriterCampaign::new("mlw-panic-tinycap", Rule::Panic, Seam::MlwTiny, gen_default(20, true)));
     try_camp!(crate::stress::StressCampaign { name: "stress-shared-client", sinks: &[crate::stress::StressSink::Spy], judge_errors: false });
     try_camp!(crate::stress::StressCampaign { name: "stress-blocked-receiver", sinks: &[crate::stress::StressSink::UnixBlockedReceiver], judge_errors: false });
     try_camp!(crate::stress::StressCampaign { name: "stress-no-spurious-errors", sinks: &[crate::stress::StressSink::Spy], judge_errors: true });
